@@ -449,6 +449,11 @@ type hint struct {
 
 func (w *world) dumpTerm() (string, []hint, *scheduler.VerifState) {
 	d := w.bq.VerifDump()
+	if d == nil {
+		// the queue lock is stuck although no call is running
+		w.ct.hung = true
+		return w.lastNullDelta, nil, nil
+	}
 	var hints []hint
 	var pqs, changedScqs []string
 	newScqs := map[string]string{}
@@ -698,6 +703,18 @@ func runHistory(h *history, each func(w *world, o opJSON, d *scheduler.VerifStat
 			fmt.Fprintf(os.Stderr, "after op %d (%s c=%d):\n%s", len(events), o.K, o.C, w.ct.debugStates())
 		}
 		dump, hints, d := w.dumpTerm()
+		if d == nil {
+			obs = append(obs, "(OPanic \"hang\"%string)")
+			events = append(events, "("+ev+", [])")
+			obss = append(obss, g.List(obs))
+			dumps = append(dumps, dump)
+			info.Events++
+			info.Ops[o.K]++
+			info.Outs["lock-stuck"]++
+			info.Nontrivial = executed && blocked
+			go w.ct.shutdown()
+			return g.App("mkCase", cfgTerm(h.Cfg), g.Z(t0Nanos), g.List(events), g.List(obss), g.List(dumps)), info, nil
+		}
 		var hs []string
 		for _, x := range hints {
 			hs = append(hs, "("+g.Nat(x.op)+", "+wrefTerm(x.w)+")")
